@@ -1,10 +1,15 @@
+mod c02;
+mod c02main;
+mod c02x;
 mod c03;
 mod c19;
 mod c19model;
 mod cli;
 mod common;
 mod hast;
+mod pgen;
 mod prng;
+mod sched;
 mod seams;
 mod session;
 
@@ -43,6 +48,10 @@ fn main() {
             };
             c03::main_batch(tier, n)
         }
+        "c02" => {
+            let tier = args.get(2).map(|s| s.as_str()).unwrap_or("quick");
+            c02main::main_batch(tier)
+        }
         "c19" => {
             let tier = args.get(2).map(|s| s.as_str()).unwrap_or("quick");
             let n: u64 = match std::env::var("VERIF_C19_SCENARIOS").ok().and_then(|s| s.parse().ok()) {
@@ -53,6 +62,18 @@ fn main() {
             };
             c19::main_batch(tier, n)
         }
+        "shard" => {
+            // internal: blots-sim shard <engine> <n> <k> <s> <outfile>
+            let n: u64 = args[3].parse().unwrap();
+            let k: u64 = args[4].parse().unwrap();
+            let s: u64 = args[5].parse().unwrap();
+            match args[2].as_str() {
+                "c02" => c02::shard_main(n, k, s, &args[6]),
+                "c03" => c03::shard_main(n, k, s, &args[6]),
+                _ => usage(),
+            }
+            0
+        }
         "replay" => {
             let path = args.get(2).unwrap_or_else(|| usage());
             let s = std::fs::read_to_string(path).unwrap_or_default();
@@ -60,6 +81,8 @@ fn main() {
             match doc["engine"].as_str() {
                 Some("c03") => c03::replay(path),
                 Some("c19") => c19::replay(path),
+                Some("c02") => c02::replay(path),
+                Some("c02x") => c02x::xreplay(path, &c19::cli_path(), &c19::shim_path()),
                 _ => {
                     eprintln!("HARNESS-ERROR: unknown engine in {}", path);
                     2
